@@ -256,6 +256,74 @@ theorem C30_environ_consistent (scheme : Str) (q : Request) :
     | (intro n v h; exact env_fold_header q.headers _ n v h)
 
 
+/-- **C30, the server's scheme** (every way of constructing a `Valet` / `Porter`): the scheme the constructor
+settles on is `https` with TLS and default port 443, or `http` without TLS and default port 80 — never empty, never
+anything else; a caller-supplied servant dictates which (its type), and without one it is TLS exactly for
+`scheme='https'`. -/
+theorem C30_server_scheme (servant : Option Bool) (scheme sch : Str) (sec : Bool) (dp : Nat)
+    (h : serverScheme servant scheme = .ok (sch, sec, dp)) :
+    ((sch = "https".toList ∧ sec = true ∧ dp = 443) ∨ (sch = "http".toList ∧ sec = false ∧ dp = 80))
+      ∧ (∀ tls, servant = some tls → sec = tls)
+      ∧ (servant = none → (sec = true ↔ scheme = "https".toList)) := by
+  unfold serverScheme at h
+  split at h
+  · split at h
+    · cases h
+    · simp only [Except.ok.injEq, Prod.mk.injEq] at h
+      obtain ⟨h1, h2, h3⟩ := h
+      subst h1; subst h2; subst h3
+      exact ⟨Or.inl ⟨rfl, rfl, rfl⟩, by intro tls ht; cases ht; rfl, by intro hn; cases hn⟩
+  · split at h
+    · cases h
+    · simp only [Except.ok.injEq, Prod.mk.injEq] at h
+      obtain ⟨h1, h2, h3⟩ := h
+      subst h1; subst h2; subst h3
+      exact ⟨Or.inr ⟨rfl, rfl, rfl⟩, by intro tls ht; cases ht; rfl, by intro hn; cases hn⟩
+  · split at h
+    · rename_i hs
+      simp only [Except.ok.injEq, Prod.mk.injEq] at h
+      obtain ⟨h1, h2, h3⟩ := h
+      subst h1; subst h2; subst h3
+      exact ⟨Or.inl ⟨rfl, rfl, rfl⟩, fun tls ht => (by cases ht), fun _ => ⟨fun _ => hs, fun _ => rfl⟩⟩
+    · rename_i hs
+      simp only [Except.ok.injEq, Prod.mk.injEq] at h
+      obtain ⟨h1, h2, h3⟩ := h
+      subst h1; subst h2; subst h3
+      exact ⟨Or.inr ⟨rfl, rfl, rfl⟩, fun tls ht => (by cases ht),
+        fun _ => ⟨fun hc => (by cases hc), fun hc => absurd hc hs⟩⟩
+
+/-- **C30, `wsgi.url_scheme` of a constructed Valet**: whatever `servant=` and `scheme=` the Valet was constructed
+with, the environment it hands to the application names `http` or `https` as `wsgi.url_scheme` (PEP 3333) — `https`
+exactly when the transport is TLS — and is otherwise the consistent environment of `C30_environ_consistent`. -/
+theorem C30_valet_environ_scheme (servant : Option Bool) (scheme : Str) (q : Request) (env : List (Str × EVal))
+    (h : valetEnviron servant scheme q = .ok env) :
+    ∃ sch sec dp, serverScheme servant scheme = .ok (sch, sec, dp) ∧ env = buildEnviron sch q
+      ∧ odGet env "wsgi.url_scheme".toList = some (.str (if sec then "https".toList else "http".toList))
+      ∧ odGet env "REQUEST_METHOD".toList = some (.str q.method)
+      ∧ odGet env "PATH_INFO".toList = some (.str q.path)
+      ∧ odGet env "wsgi.input".toList = some (.bytes q.body) := by
+  unfold valetEnviron at h
+  split at h
+  · cases h
+  · rename_i sch sec dp hs
+    simp only [Except.ok.injEq] at h
+    subst h
+    have hc := C30_environ_consistent sch q
+    simp only [] at hc
+    obtain ⟨hm, hp, _, hu, hi, _⟩ := hc
+    refine ⟨sch, sec, dp, hs, rfl, ?_, hm, hp, hi⟩
+    rw [hu]
+    rcases (C30_server_scheme servant scheme sch sec dp hs).1 with ⟨h1, h2, _⟩ | ⟨h1, h2, _⟩
+    · rw [h1, h2]; rfl
+    · rw [h1, h2]; rfl
+
+/-- non-vacuity: a supplied TLS servant without a scheme gives `https`; a supplied plain servant with scheme
+`https` is refused; no servant and no scheme gives plain `http` on port 80 -/
+example : serverScheme (some true) [] = .ok ("https".toList, true, 443)
+    ∧ serverScheme (some false) "https".toList = .error .valueError
+    ∧ serverScheme none [] = .ok ("http".toList, false, 80)
+    ∧ serverPort none 443 = 443 ∧ serverPort (some 8080) 443 = 8080 := by decide
+
 /-! ## responses -/
 
 /-- the parsed headers of a block -/
@@ -339,6 +407,51 @@ theorem C30_response_wire_chunked (method : Str) (code : Nat) (reasonWords : Lis
   unfold parseResponse
   simp only [hne, Bool.false_eq_true, if_false, hst, version_11, hld, hte, hte', hcl, hev, decide_true, if_true, hch]
   exact ⟨_, rfl, ⟨rfl, rfl, by simp [stripC_join _ hw], rfl, rfl⟩, rfl⟩
+
+/-- **C30, a response that has no body** (answer to `HEAD`, `204`, `304`): whatever length its head declares, the
+client takes no body bytes — what follows the head is the next response, left untouched; and when the head says
+`Transfer-Encoding: chunked` (what the WSGI server does for an application that gave no Content-Length) the
+chunk terminator the server writes **is** consumed, so that the next response on the connection starts at its status
+line (second part: `C30_response_wire_chunked` with no pieces). -/
+theorem C30_response_wire_bodiless (method : Str) (closed : Bool) (code : Nat) (reasonWords : List Str)
+    (hs : List (Str × Str)) (rest : Bytes) (cl : Option Nat)
+    (hw : ∀ w ∈ reasonWords, Visible w) (hc : 200 ≤ code ∧ code ≤ 999)
+    (hbodiless : method = "HEAD".toList ∨ code = 204 ∨ code = 304)
+    (hlen : (statusText code reasonWords).length ≤ MAX_LINE_SIZE)
+    (hgood : ∀ kv ∈ hs, GoodName kv.1 ∧ GoodValue kv.2 ∧ (headerLine kv.1 kv.2).length ≤ MAX_LINE_SIZE)
+    (hcount : hs.length ≤ MAX_HEADERS)
+    (hte : odGet (dictOf hs) "transfer-encoding".toList = none)
+    (hcl : contentLength (odGet (dictOf hs) "content-length".toList) = .ok cl)
+    (hev : isEventStream (dictOf hs) = false) :
+    ∃ q, parseResponse method closed (responseHead code reasonWords hs ++ rest) = .done q rest
+      ∧ Parsed q code reasonWords hs [] ∧ q.chunked = false := by
+  obtain ⟨hne, hst, hld⟩ := parseResponse_head closed code reasonWords hs rest hw ⟨by omega, hc.2⟩ (by omega)
+    hlen hgood hcount
+  have hs1 : (code = 204 ∨ code = 304 ∨ (100 ≤ code ∧ code < 200) ∨ method = "HEAD".toList) := by
+    rcases hbodiless with h | h | h
+    · exact Or.inr (Or.inr (Or.inr h))
+    · exact Or.inl h
+    · exact Or.inr (Or.inl h)
+  unfold parseResponse
+  simp only [hne, Bool.false_eq_true, if_false, hst, version_11, hld, hte, hcl, hev, hs1, if_true, Nat.not_lt_zero,
+    List.take_zero, List.drop_zero]
+  exact ⟨_, rfl, ⟨rfl, rfl, by simp [stripC_join _ hw], rfl, rfl⟩, rfl⟩
+
+example : ∃ q, parseResponse "HEAD".toList false
+      (responseHead 200 ["OK".toList] [("Content-Length".toList, "1234".toList)] ++ "HTTP/1.1 204".toList.map Char.toNat)
+        = .done q ("HTTP/1.1 204".toList.map Char.toNat)
+    ∧ Parsed q 200 ["OK".toList] [("Content-Length".toList, "1234".toList)] [] ∧ q.chunked = false :=
+  C30_response_wire_bodiless _ false 200 _ _ _ (some 1234) (by decide +kernel) (by decide +kernel) (Or.inl rfl) (by decide +kernel)
+    (by decide +kernel) (by decide +kernel) (by decide +kernel) (by decide +kernel) (by decide +kernel)
+
+/-- the chunked no-body case: `204` with `Transfer-Encoding: chunked`, terminator consumed, next status line intact -/
+example : ∃ q, parseResponse "GET".toList false
+      (responseHead 204 ["No".toList, "Content".toList] [("Transfer-Encoding".toList, "chunked".toList)]
+        ++ (chunkedBody [] ++ "HTTP/1.1 200 OK".toList.map Char.toNat)) = .done q ("HTTP/1.1 200 OK".toList.map Char.toNat)
+    ∧ Parsed q 204 ["No".toList, "Content".toList] [("Transfer-Encoding".toList, "chunked".toList)] ([] : List Bytes).flatten
+    ∧ q.chunked = true :=
+  C30_response_wire_chunked _ 204 _ _ [] _ "chunked".toList (by decide +kernel) (by decide +kernel) (by decide +kernel) (by decide +kernel)
+    (by decide +kernel) (by decide +kernel) (by decide +kernel) ⟨none, by decide +kernel⟩ (by decide +kernel) (by simp)
 
 /-- **C30, response streamed without a length**: with neither `Content-Length` nor chunking the body is everything
 up to the close of the connection: complete once closed, `need` (never complete) while the connection stays open —
